@@ -268,12 +268,18 @@ def run_check(pid, tier, seed, replay, t0, debug=False):
         cases += mod.gen(rng, tier)
 
     outcomes = []
+    n_timeouts = 0
     for c in cases:
+        if n_timeouts >= 3:   # a non-terminating implementation: do not spend 10 s on every case
+            outcomes.append(Outcome(coq=None, oracle=None, nontrivial=False, sig=("skipped",)))
+            continue
         try:
             with quiet():
                 o = mod.run(c)
         except Timeout:
             o = Outcome(coq=None, oracle="call did not terminate within the wall-clock guard", sig=("timeout",))
+        if o.oracle and "did not terminate" in o.oracle:
+            n_timeouts += 1
         outcomes.append(o)
 
     oracle_fail = [i for i, o in enumerate(outcomes) if o.oracle]
